@@ -86,5 +86,8 @@ func (V *Verifier) lemmaOblig(l *Lemma) (*Oblig, error) {
 	o.lemmaDecls = decls
 	o.lemmaBody = body.String()
 	o.lemmaFuel = l.Fuel
+	for _, n := range l.Opaque {
+		o.lemmaOpaque = append(o.lemmaOpaque, "lv."+n)
+	}
 	return o, nil
 }
